@@ -87,7 +87,7 @@ fn c14_2_delivery_never_exceeds_link_ceiling() {
         "C14: delivery leaves the cool-down alone");
 }
 
-// @verif id=C14.3 props=C14,C10 tier=quick
+// @verif id=C14.3 props=C14 tier=quick
 // @functions SegmentSizes::next_segment_size, SegmentSizes::next_probe, SegmentSizes::is_probing, SegmentSizes::disarm_cooldown, SegmentSizes::mss
 // @bounds every valid state, any ceil <= 65487
 // @asserts next size is min_ss (ordinary) or in (min_ss, max_ss] (probe); a probe only when the cool-down had reached 0 and it re-arms the cool-down; sizes untouched; is_probing <=> min_ss < max_ss; disarm zeroes the cool-down
@@ -116,7 +116,7 @@ fn c14_3_probe_law() {
     assert!(s.cooldown_remaining_packets == 0 && s.min_ss == pre.min_ss && s.max_ss == pre.max_ss, "C14: disarm only zeroes the cool-down");
 }
 
-// @verif id=C14.4a props=C14,C10 tier=quick
+// @verif id=C14.4a props=C14 tier=quick
 // @functions SegmentSizes::next_segment_size, SegmentSizes::on_probe_failed, SegmentSizes::on_payload_delivered, SegmentSizes::disarm_cooldown
 // @bounds every valid state with a non-empty interval, any ceil <= 65487, any true path size T in [min_ss, max_ss]; one probe round (success iff probe <= T)
 // @asserts the interval at least halves; T stays inside [min_ss', max_ss']; invariant preserved
